@@ -41,6 +41,7 @@ pub fn gen(seed: u64, tier: Tier) -> ScenarioSpec {
         }
         spec.knobs.insert("recheck_every".into(), *rng.pick(&[0i64, 11, 60]));
     }
+    spec.knobs.insert("prelude".into(), gen_prelude(&mut rng, &[1, 4, 5], 8));
     spec
 }
 
@@ -48,6 +49,7 @@ pub fn run(spec: &ScenarioSpec, ctx: &mut Ctx) -> Result<(), Violation> {
     let m = recorder::build(&spec.recorder);
     ctx.rep.sim_time_ns += m.sim_time_ns();
     shape_of_model(ctx, &m, spec);
+    prelude(spec.knob("prelude"), spec.seed, &m, ctx);
     ctx.shape("api", (spec.api == Api::Incremental) as u64);
     if spec.api == Api::Incremental {
         return s2::run(spec, &m, ctx, P, s2::Flags { model_rows: true, row_view: false, protocol: false, final_equiv: false });
